@@ -161,14 +161,17 @@ def bigint_threshold_cases(rng, quick):
         t = float(B + rng.choice([0, 0, 2, -2, 4]))          # representable: a multiple of the float spacing there
         if float(t) != t or int(t) != t:
             continue
-        out.append((arr, float(t), rng.choice(['pyfloat', 'np64'])))
+        kind = rng.choice(['pyfloat', 'np64', 'np32'])
+        if kind == 'np32' and float(np.float32(t)) != t:
+            kind = 'np64'
+        out.append((arr, float(t), kind))
     return out
 
 
 def float_threshold_oracle(arr, t, kind):
     from astrodendro import Dendrogram
     import fractions
-    mv = np.float64(t) if kind in ('np64', 'rounded') else (np.int64(t) if kind == 'npint' else t)
+    mv = np.float64(t) if kind in ('np64', 'rounded') else (np.int64(t) if kind == 'npint' else (np.float32(t) if kind == 'np32' else t))
     d = Dendrogram.compute(arr.copy(), min_value=mv)
     lab = d.index_map.ravel()
     fails = []
